@@ -54,7 +54,7 @@ structure State where
   nextId : Nat := 0
   deriving Repr
 
-inductive Err | ok | uninitialized | digestEmpty | root | alloc | size | prefixDir | rename | unknownStorage
+inductive Err | ok | uninitialized | digestEmpty | root | alloc | size | prefixDir | rename | unknownStorage | tempGone
   deriving DecidableEq, Repr
 
 structure Params where
@@ -140,11 +140,19 @@ def commit (P : Params) (s : State) (id : Nat) (path : String) (renameFails : Bo
             (.ok, { s with root := .dir d' })
         | _ => (.rename, s)
 
-/-- store.go:417-432 `Storage.Discard`. -/
+def hasTemp (r : Root) (id : Nat) : Bool :=
+  match r with
+  | .dir d => d.temps.contains id
+  | _ => false
+
+/-- store.go:417-432 `Storage.Discard` (`os.Remove` of the temporary file
+fails when a `Finalize` has already swept it away). -/
 def discard (s : State) (id : Nat) : Err × State :=
   match aget id s.storages with
   | none => (.unknownStorage, s)
-  | some _ => (.ok, { s with storages := adel id s.storages, root := removeTemp s.root id })
+  | some _ =>
+    (if hasTemp s.root id then .ok else .tempGone,
+     { s with storages := adel id s.storages, root := removeTemp s.root id })
 
 /-- store.go:251-288 `Contains`. -/
 def contains (P : Params) (s : State) (path : String) (digest : Bytes) : Err × Bool :=
